@@ -66,7 +66,16 @@ fn main() {
         closed &= ex.stats.closed;
         // unions: all ordered pairs for <= 4 slots, (|B| <= 2) x all states for 8 slots
         let rights: Vec<qf::St> = if model.cfg.capacity() <= 4 && ex.states.len() <= 3000 { ex.states.clone() } else { ex.states.iter().filter(|s| s.set.count_ones() <= if thorough { 2 } else { 1 }).cloned().collect() };
-        let (ps, pv) = if ex.viols.is_empty() { qf::pair_sweep(&model, &ex.states, &rights, false, n_threads()) } else { Default::default() };
+        let (mut ps, mut pv) = if ex.viols.is_empty() { qf::pair_sweep(&model, &ex.states, &rights, false, n_threads()) } else { Default::default() };
+        if ex.viols.is_empty() && rights.len() < ex.states.len() {
+            // converse sweep: small left operand x every reachable right operand (big clusters are transferred)
+            let small: Vec<qf::St> = ex.states.iter().filter(|s| s.set.count_ones() <= if thorough { 2 } else { 1 }).cloned().collect();
+            let (ps2, pv2) = qf::pair_sweep(&model, &small, &ex.states, false, n_threads());
+            ps.pairs += ps2.pairs;
+            ps.ok += ps2.ok;
+            ps.failing += ps2.failing;
+            pv.extend(pv2);
+        }
         run.ev.add_u64("states", ex.stats.states);
         run.ev.add_u64("transitions", ex.stats.transitions + ps.pairs);
         run.ev.push("quotient", json!({"config": label, "states": ex.stats.states, "transitions": ex.stats.transitions, "closed": ex.stats.closed, "union_pairs": ps.pairs, "unions_ok": ps.ok, "unions_failing": ps.failing}));
@@ -96,13 +105,13 @@ fn main() {
             Ok(m) => m,
             Err(e) => return Err((label, e)),
         };
-        let ex = cuckoo::explore(&model, false, 3_000_000, 1);
+        let ex = cuckoo::explore(&model, false, 400_000, 1);
         // union sweep on the class-multiset model (budgeted configurations only)
         let mut ps = cuckoo::PairStats::default();
         let mut pv = vec![];
         if cfg.budget.is_some() && cfg.budget.unwrap() <= 2 && cfg.l == 2 && cfg.bucketsize == 2 {
             let cm = CfModel::new(cfg.clone(), Mode::Classes, false).unwrap();
-            let cex = cuckoo::explore(&cm, true, 3_000_000, 1);
+            let cex = cuckoo::explore(&cm, true, 400_000, 1);
             let rights: Vec<cuckoo::St> = cex.states.iter().filter(|s| s.f.len() <= if thorough { 4 } else { 2 }).cloned().collect();
             let r = cuckoo::pair_sweep(&cm, &cex.states, &rights, 1);
             ps = r.0;
